@@ -9,7 +9,15 @@
 //                           foreign thread (resumes after d work);  cbw = work inside the callback after the hand-off (before resume for m=0)
 //       N<u>,<u>,...        task_group: run the listed units, wait   (units suspend inside the wait of the enclosing stack or on whoever steals them)
 //       F<n>:<u>            parallel_for over [0,n) grain 1 simple_partitioner, every index runs unit <u> as its body
-// Suspension happens only inside tasks (task_group tasks, parallel_for bodies), as in oneTBB's own tests.
+//       G<u>                (root only) run unit u in the global task_group that is waited for at the very end (not before)
+//       R                   (root only) resume every suspension of mode 3 that is parked at this moment
+//       S3:<cbw>:<d>        (only below a G unit) the suspend point is parked until the root executes R -- i.e. until the root's own earlier
+//                           suspensions have continued -- or, once the root unit is over, until a foreign thread serves it
+//       X<u>                (inside a task) second_arena.execute(unit u inline): unit u runs directly in the execute functor
+//   cfg twin=<u|0>         a second external thread runs unit u through arena.execute at the same time as the root
+// Suspension happens inside tasks (task_group tasks, parallel_for bodies) and DIRECTLY in an execute functor (root unit, twin unit, X units):
+// such a suspension is at the outermost dispatch level of its thread, the frames below belong to that thread, so the code after suspend()
+// must continue on the thread that suspended (the library recalls the owner), wherever the resume task is picked up.
 #include "oneapi/tbb/task.h"
 #include "oneapi/tbb/task_group.h"
 #include "oneapi/tbb/task_arena.h"
@@ -19,6 +27,8 @@
 #if !defined(C20_NO_WB) && defined(__has_include)
 #if __has_include("scheduler_common.h")
 #include "scheduler_common.h"      // whitebox, statistics only: raw value of suspend_point_type::m_stack_state at the resume call
+#include "governor.h"              // whitebox: is the current task dispatcher at its outermost level?  (see peek_outermost)
+#include "thread_data.h"
 #define C20_WB 1
 #endif
 #endif
@@ -29,31 +39,40 @@ bool H_TSO = true;
 
 // ------------------------------------------------------------------ generator
 struct GenSt { Src& s; int next_unit; int budget; int nsusp; bool any_ext; std::vector<std::string> lines; };
-static void gen_unit(GenSt& g, int uid, int depth, bool body, int mult) {
+static void gen_unit(GenSt& g, int uid, int depth, bool body, int mult, bool direct = false, bool parked_ok = false) {
     std::string o = "u " + std::to_string(uid);
     std::vector<std::pair<int, int>> todo;     // (unit, 0 = task_group unit / n = parallel_for body run n times)
     int nops = depth == 0 ? g.s.range(1, 2) : g.s.range(1, body ? 2 : 3);
     for (int k = 0; k < nops; k++) {
         bool can_sub = g.budget > 0 && depth < 2;
-        bool can_s = depth > 0 && g.nsusp + mult <= 7;
+        bool can_s = g.nsusp + mult <= 7;
         uint32_t c;
-        if (depth == 0) c = (k == 0 || !can_sub) ? (can_sub ? (g.s.choose(4) == 3 ? 3u : 2u) : 0u) : g.s.weighted({ 1, 0, 3, 1 });
-        else c = g.s.weighted({ 3, can_s ? 6u : 0u, can_sub ? 2u : 0u, can_sub ? 1u : 0u });
+        if (depth == 0 && !direct) c = (k == 0 || !can_sub) ? (can_sub ? (g.s.choose(4) == 3 ? 3u : 2u) : 0u) : g.s.weighted({ 1, can_s ? 2u : 0u, 3, 1 });
+        else if (direct) c = g.s.weighted({ 2, can_s ? 6u : 0u, can_sub ? 2u : 0u, 0u });
+        else c = g.s.weighted({ 3, can_s ? 6u : 0u, can_sub ? 2u : 0u, can_sub ? 1u : 0u, (can_sub && depth == 1) ? 1u : 0u });
         if (c == 0) o += " W" + std::to_string(g.s.range(1, 6));
         else if (c == 1) {
-            uint32_t m = g.s.weighted({ 2, 3, 4 }); g.nsusp += mult; if (m == 2) g.any_ext = true;
+            uint32_t m = g.s.weighted({ 2, 3, 4, parked_ok ? 6u : 0u }); g.nsusp += mult; if (m >= 2) g.any_ext = true;
             o += " S" + std::to_string(m) + ":" + std::to_string(g.s.range(0, 5)) + ":" + std::to_string(g.s.coin(3) ? 0 : g.s.range(0, 6));
         } else if (c == 2) {
             int n = depth == 0 ? g.s.range(2, 4) : g.s.range(1, 3); std::string l;
             for (int i = 0; i < n && g.budget > 0; i++) { int u = g.next_unit++; g.budget--; l += (l.empty() ? "" : ",") + std::to_string(u); todo.push_back({ u, 0 }); }
             if (!l.empty()) o += " N" + l; else o += " W1";
-        } else {
+        } else if (c == 3) {
             static const int ns[] = { 2, 3, 4, 6 }; int u = g.next_unit++; g.budget--; int n = ns[g.s.choose(4)];
             o += " F" + std::to_string(n) + ":" + std::to_string(u); todo.push_back({ u, n });
-        }
+        } else { int u = g.next_unit++; g.budget--; o += " X" + std::to_string(u); todo.push_back({ u, -1 }); }
+    }
+    if (depth == 0 && !direct && g.budget > 0 && g.s.coin(3)) {      // a chain: G-unit parks suspensions that only the root's R releases, the root suspends itself before R
+        int u = g.next_unit++; g.budget--; todo.push_back({ u, -2 });
+        // the chain comes after the root's other operations: between G and R the root must not wait in a nested dispatch loop (it could pick up the
+        // G unit there, whose parked suspension needs the R that lies below it on the same stack)
+        o += " G" + std::to_string(u);
+        if (g.nsusp + 1 <= 7) { uint32_t m = g.s.weighted({ 1, 3, 4 }); g.nsusp++; if (m == 2) g.any_ext = true; o += " S" + std::to_string(m) + ":" + std::to_string(g.s.range(0, 5)) + ":" + std::to_string(g.s.range(0, 6)); }
+        o += " R"; g.any_ext = true;
     }
     g.lines.push_back(o);
-    for (auto& t : todo) gen_unit(g, t.first, depth + 1, t.second != 0, t.second ? mult * t.second : mult);
+    for (auto& t : todo) { if (t.second == -2) { gen_unit(g, t.first, 1, false, mult, false, true); continue; } if (t.second == -1) gen_unit(g, t.first, depth + 1, false, mult, true); else gen_unit(g, t.first, depth + 1, t.second != 0, t.second ? mult * t.second : mult, false, parked_ok); }
 }
 std::string h_gen(Src& s) {
     int par = 1 + (int)s.weighted({ 4, 2, 3, 1 }); par = par == 1 ? 2 : par == 2 ? 1 : par;   // 0 -> par 2 (simplest interesting), then 1, 3, 4
@@ -61,8 +80,9 @@ std::string h_gen(Src& s) {
     int res = s.choose(4) == 3 ? 0 : 1;
     GenSt g{ s, 1, 6, 0, false, {} };
     gen_unit(g, 0, 0, false, 1);
+    int twin = 0; if (mc >= 2 && s.coin(3)) { twin = g.next_unit++; gen_unit(g, twin, 1, false, 1, true); }
     int ext = g.any_ext ? 1 + (int)s.choose(2) : 0;
-    std::string o = "cfg par=" + std::to_string(par) + " arena=" + std::to_string(mc) + ":" + std::to_string(res) + " ext=" + std::to_string(ext) + "\n";
+    std::string o = "cfg par=" + std::to_string(par) + " arena=" + std::to_string(mc) + ":" + std::to_string(res) + " ext=" + std::to_string(ext) + " twin=" + std::to_string(twin) + "\n";
     for (auto& l : g.lines) o += l + "\n";
     return o;
 }
@@ -76,11 +96,12 @@ struct Susp {
     tbb::task::suspend_point sp = nullptr;
     int th_s = -1, th_c = -1, th_r = -1;
     uint64_t cb_start = 0, cb_end = 0, r_inv = 0, r_ret = 0, c_enter = 0, c_exit = 0;
-    int cont = 0, rcalls = 0, pre_state = -1; bool inside = false, cb_active = false;
+    int cont = 0, rcalls = 0, pre_state = -1; bool inside = false, cb_active = false, direct = false;
     uintptr_t stack = 0;
 };
 static std::vector<UnitT> U; static std::deque<Act> ACT; static std::deque<Susp> SU;
 static std::deque<int> XQ; static bool x_done = false; static long x_expected_left = 0;
+static std::deque<int> L3; static bool l3_release = false; static long n_parked = 0, n_released_by_root = 0;     // mode 3: parked until the root's R (or, after the root unit, served by a foreign thread)
 static tbb::task_group* SG = nullptr;
 static long n_early[3], n_late[3], n_migrated = 0, n_otherwork = 0, n_unit_on_worker = 0, n_waitchecks = 0, n_cont_during_cb_window = 0;
 static long n_lvl_outer = 0, n_lvl_nested = 0, n_on_coroutine = 0, n_on_master = 0, n_on_worker = 0, n_wb_bad = 0;
@@ -108,12 +129,18 @@ struct Waiting { uintptr_t stack; uintptr_t frame; };
 static std::vector<Waiting> waiting;             // nested waits (N / F ops) in progress: (stack, frame address)
 
 #if C20_WB
+// 1 = the calling thread's current task dispatcher is at its outermost level (no dispatch loop below the caller on this stack): a suspension made
+// now is the kind the library hands back to its owner.  A task_arena::execute functor is at that level only if execute() found a free slot at
+// once; otherwise it is wrapped into a delegated task and runs inside a dispatch loop, even when the calling thread ends up running it itself.
+static int peek_outermost() { tbb::detail::r1::thread_data* td = tbb::detail::r1::governor::get_thread_data_if_initialized(); return (td && td->my_task_dispatcher) ? (td->my_task_dispatcher->m_properties.outermost ? 1 : 0) : -1; }
 template <class S> static auto peek_state(S* sp, int) -> decltype((int)sp->m_stack_state.a.load(std::memory_order_relaxed)) { return (int)sp->m_stack_state.a.load(std::memory_order_relaxed); }
 template <class S> static int peek_state(S*, long) { return -1; }
 #else
+static int peek_outermost() { return -1; }
 template <class S> static int peek_state(S*, int) { return -1; }
 #endif
 
+static tbb::task_arena* g_arena2 = nullptr; static long n_direct_susp = 0, n_direct_resumed_elsewhere = 0, n_direct_but_delegated = 0;
 static void do_resume(int sid) {
     vs_work(1);                                   // the decision point in front of the (atomic) peek + first operation of resume()
     Susp& s = SU[sid];
@@ -134,6 +161,7 @@ static void on_callback(int sid, tbb::task::suspend_point sp) {
     int mode = SU[sid].mode, cbw = SU[sid].cbw, d = SU[sid].d;
     if (mode == 0) { vs_work(cbw); do_resume(sid); vs_work(d); }
     else if (mode == 1) { SG->run([sid, d] { vs_work(d); do_resume(sid); }); vs_work(cbw); }
+    else if (mode == 3 && !l3_release) { n_parked++; L3.push_back(sid); vs_work(cbw); }
     else { XQ.push_back(sid); vs_work(cbw); }
     Susp& s = SU[sid]; s.cb_end = vs_now(); s.cb_active = false;
 }
@@ -144,6 +172,8 @@ static void on_continue(int sid) {
     if (++s.cont > 1) vs_violation("RESUMED-TWICE", "suspension %d (unit %d mode %d) continued %d times (threads %d then %d)", sid, s.unit, s.mode, s.cont, s.th_c, vs_self());
     if (s.inside) vs_violation("TWO-IN-CONTINUATION", "suspension %d: two threads inside one continuation", sid);
     s.inside = true; s.c_enter = vs_now(); s.th_c = vs_self();
+    if (s.direct && s.th_c != s.th_s) vs_violation("CONTINUED-ON-WRONG-THREAD", "suspension %d (unit %d mode %d) was made directly in a task_arena::execute functor on thread %d, but the code after suspend() continued on thread %d (resume was called by thread %d)", sid, s.unit, s.mode, s.th_s, s.th_c, s.th_r);
+    if (s.direct && s.th_r != s.th_s) n_direct_resumed_elsewhere++;
     if (s.th_c != s.th_s) n_migrated++;
     bool other = false; for (auto& r : unit_starts) if (r.th == s.th_s && r.t > s.cb_start && r.t < s.c_enter) other = true;
     if (other) n_otherwork++;
@@ -153,7 +183,7 @@ static void on_continue(int sid) {
     s2.inside = false; s2.c_exit = vs_now();
 }
 
-static void run_unit(int uid, int act);
+static void run_unit(int uid, int act, bool direct = false);   // direct: the unit runs in a task_arena::execute functor on the thread that called execute (not inside a task)
 static int new_act(int u) { ACT.push_back(Act{ u, 0, 0 }); return (int)ACT.size() - 1; }
 static void check_acts(int from, int to, const char* how) {
     n_waitchecks++;
@@ -171,7 +201,7 @@ static void classify_suspend(int sid, const void* frame) {
     bool nested = false; for (auto& w : waiting) if (w.stack == k && w.frame > (uintptr_t)frame) nested = true;
     if (nested) n_lvl_nested++; else n_lvl_outer++;
 }
-static void run_unit(int uid, int act) {
+static void run_unit(int uid, int act, bool direct) {
     { Act& a = ACT[act]; if (++a.started > 1) vs_violation("RAN-TWICE", "unit %d started %d times", uid, a.started); }
     unit_starts.push_back({ vs_self(), vs_now() });
     if (vs_self() != 0) n_unit_on_worker++;
@@ -180,7 +210,7 @@ static void run_unit(int uid, int act) {
         switch (op.c) {
         case 'W': vs_work(op.a); break;
         case 'S': {
-            SU.push_back(Susp{}); int sid = (int)SU.size() - 1; { Susp& s = SU[sid]; s.unit = uid; s.mode = op.a; s.cbw = op.b; s.d = op.d; }
+            SU.push_back(Susp{}); int sid = (int)SU.size() - 1; { Susp& s = SU[sid]; s.unit = uid; s.mode = op.a; s.cbw = op.b; s.d = op.d; s.direct = direct && peek_outermost() == 1; if (s.direct) n_direct_susp++; else if (direct) n_direct_but_delegated++; }
             int anchor = 0; classify_suspend(sid, &anchor);
             tbb::task::suspend([sid](tbb::task::suspend_point sp) { on_callback(sid, sp); });
             on_continue(sid);
@@ -189,16 +219,24 @@ static void run_unit(int uid, int act) {
             tbb::task_group tg; int from = (int)ACT.size();
             for (int u : op.subs) new_act(u);
             int anchor = 0; uintptr_t k = stack_key(&anchor); waiting.push_back({ k, (uintptr_t)&anchor });
-            for (size_t i = 0; i < op.subs.size(); i++) { int u = op.subs[i], a = from + (int)i; tg.run([u, a] { run_unit(u, a); }); }
+            for (size_t i = 0; i < op.subs.size(); i++) { int u = op.subs[i], a = from + (int)i; tg.run([u, a] { run_unit(u, a, false); }); }
             tg.wait();
             for (size_t i = 0; i < waiting.size(); i++) if (waiting[i].frame == (uintptr_t)&anchor) { waiting.erase(waiting.begin() + (long)i); break; }
             check_acts(from, from + (int)op.subs.size(), "task_group::wait");
+            break; }
+        case 'G': { int u = op.a, a = new_act(u); SG->run([u, a] { run_unit(u, a, false); }); break; }
+        case 'R': { while (!L3.empty()) { int sid = L3.front(); L3.pop_front(); n_released_by_root++; vs_work(SU[sid].d); do_resume(sid); } break; }
+        case 'X': {
+            int u = op.a, a = new_act(u);
+            int caller = vs_self();      // a full arena turns execute() into a delegated task: then the functor runs as a task on some other thread
+            g_arena2->execute([u, a, caller] { run_unit(u, a, vs_self() == caller); });
+            if (ACT[a].finished != 1) vs_violation("WAIT-TOO-EARLY", "task_arena::execute returned but its functor (unit %d) finished %d times", u, ACT[a].finished);
             break; }
         case 'F': {
             int n = op.a, u = op.b, from = (int)ACT.size();
             for (int i = 0; i < n; i++) new_act(u);
             int anchor = 0; uintptr_t k = stack_key(&anchor); waiting.push_back({ k, (uintptr_t)&anchor });
-            tbb::parallel_for(tbb::blocked_range<int>(0, n, 1), [u, from](const tbb::blocked_range<int>& r) { for (int i = r.begin(); i < r.end(); i++) run_unit(u, from + i); }, tbb::simple_partitioner());
+            tbb::parallel_for(tbb::blocked_range<int>(0, n, 1), [u, from](const tbb::blocked_range<int>& r) { for (int i = r.begin(); i < r.end(); i++) run_unit(u, from + i, false); }, tbb::simple_partitioner());
             for (size_t i = 0; i < waiting.size(); i++) if (waiting[i].frame == (uintptr_t)&anchor) { waiting.erase(waiting.begin() + (long)i); break; }
             check_acts(from, from + n, "parallel_for");
             break; }
@@ -229,10 +267,10 @@ static void on_deadlock(const char* d) { vs_violation("DEADLOCK", "%s | pending:
 static void on_fixpoint(const char* d) { vs_violation("SPIN-FIXPOINT", "%s | pending:%s", d, pending_dump().c_str()); }
 
 void h_run(Case& c) {
-    int par = 2, mc = 2, res = 1, ext = 0;
+    int par = 2, mc = 2, res = 1, ext = 0, twin = 0;
     for (auto& l : c.lines) {
         auto w = split_ws(l);
-        if (w[0] == "cfg") { par = (int)kvl(l, "par", 2); ext = (int)kvl(l, "ext", 0); std::string a = kvs(l, "arena", "2:1"); sscanf(a.c_str(), "%d:%d", &mc, &res); }
+        if (w[0] == "cfg") { par = (int)kvl(l, "par", 2); ext = (int)kvl(l, "ext", 0); twin = (int)kvl(l, "twin", 0); std::string a = kvs(l, "arena", "2:1"); sscanf(a.c_str(), "%d:%d", &mc, &res); }
         else if (w[0] == "u") {
             int id = atoi(w[1].c_str()); if ((int)U.size() <= id) U.resize(id + 1);
             for (size_t i = 2; i < w.size(); i++) {
@@ -240,6 +278,8 @@ void h_run(Case& c) {
                 if (op.c == 'W') op.a = atoi(p);
                 else if (op.c == 'S') sscanf(p, "%d:%d:%d", &op.a, &op.b, &op.d);
                 else if (op.c == 'F') sscanf(p, "%d:%d", &op.a, &op.b);
+                else if (op.c == 'X' || op.c == 'G') op.a = atoi(p);
+                else if (op.c == 'R') {}
                 else if (op.c == 'N') { for (const char* q = p; *q;) { op.subs.push_back(atoi(q)); while (*q && *q != ',') q++; if (*q == ',') q++; } }
                 else vs_inconclusive("BAD-CASE", "unknown op %s", w[i].c_str());
                 U[id].ops.push_back(op);
@@ -247,7 +287,8 @@ void h_run(Case& c) {
         }
     }
     if (U.empty()) vs_inconclusive("BAD-CASE", "no units");
-    for (auto& u : U) for (auto& op : u.ops) { if (op.c == 'F' && (op.b <= 0 || op.b >= (int)U.size())) vs_inconclusive("BAD-CASE", "bad unit"); for (int s : op.subs) if (s <= 0 || s >= (int)U.size()) vs_inconclusive("BAD-CASE", "bad unit"); }
+    if (twin < 0 || twin >= (int)U.size()) vs_inconclusive("BAD-CASE", "bad twin unit");
+    for (auto& u : U) for (auto& op : u.ops) { if (op.c == 'F' && (op.b <= 0 || op.b >= (int)U.size())) vs_inconclusive("BAD-CASE", "bad unit"); if ((op.c == 'X' || op.c == 'G') && (op.a <= 0 || op.a >= (int)U.size())) vs_inconclusive("BAD-CASE", "bad unit"); for (int s : op.subs) if (s <= 0 || s >= (int)U.size()) vs_inconclusive("BAD-CASE", "bad unit"); }
     if (res > mc) res = mc; g_mc = mc; g_par = par;
     vs_begin(c.sched.c_str());
     vs_on_deadlock(on_deadlock); vs_on_fixpoint(on_fixpoint);
@@ -257,8 +298,14 @@ void h_run(Case& c) {
         SG = new tbb::task_group;
         std::vector<int> tids;
         for (int e = 0; e < ext; e++) tids.push_back(vs_thread_start(ext_thread, nullptr));
-        int root = new_act(0);
-        arena->execute([root] { run_unit(0, root); SG->wait(); });
+        g_arena2 = new tbb::task_arena(2, 1);
+        int root = new_act(0); int tw_act = twin ? new_act(twin) : -1; static tbb::task_arena* s_arena; s_arena = arena; static int s_twin, s_tw_act; s_twin = twin; s_tw_act = tw_act;
+        int tw_tid = -1;
+        if (twin) tw_tid = vs_thread_start([](void*) { int caller = vs_self(); s_arena->execute([caller] { run_unit(s_twin, s_tw_act, vs_self() == caller); }); }, nullptr);
+        { int caller = vs_self(); arena->execute([root, caller] { run_unit(0, root, vs_self() == caller);
+            l3_release = true; while (!L3.empty()) { XQ.push_back(L3.front()); L3.pop_front(); }      // whatever is still parked (or gets parked later) goes to the foreign thread
+            SG->wait(); }); }
+        if (tw_tid >= 0) { vs_thread_join(tw_tid); if (ACT[tw_act].finished != 1) vs_violation("WAIT-TOO-EARLY", "task_arena::execute of the second external thread returned but its unit finished %d times", ACT[tw_act].finished); }
         if (ACT[root].finished != 1) vs_violation("WAIT-TOO-EARLY", "task_arena::execute returned but the root unit finished %d times", ACT[root].finished);
         x_done = true;
         for (int t : tids) vs_thread_join(t);
@@ -286,6 +333,8 @@ void h_run(Case& c) {
     if (n_early[0]) vs_stat_flag("early_resume_in_callback"); if (n_early[1]) vs_stat_flag("early_resume_by_task"); if (n_early[2]) vs_stat_flag("early_resume_by_foreign_thread");
     if (n_late[1] + n_late[2]) vs_stat_flag("resume_after_switch");
     if (n_migrated) vs_stat_flag("continued_on_other_thread"); if (n_otherwork) vs_stat_flag("suspender_ran_other_work");
+    vs_stat_add("n_parked", n_parked); vs_stat_add("n_released_by_root", n_released_by_root); if (n_released_by_root) vs_stat_flag("suspension_released_by_code_after_another_suspension");
+    vs_stat_add("n_direct_susp", n_direct_susp); vs_stat_add("n_direct_but_delegated", n_direct_but_delegated); if (n_direct_susp) vs_stat_flag("suspend_directly_in_execute_functor"); if (n_direct_resumed_elsewhere) vs_stat_flag("direct_suspension_resumed_by_other_thread"); if (twin) vs_stat_flag("second_external_thread_in_arena");
     if (n_lvl_outer) vs_stat_flag("suspend_at_outermost_level"); if (n_lvl_nested) vs_stat_flag("suspend_inside_nested_wait");
     if (n_on_coroutine) vs_stat_flag("suspend_on_coroutine_stack"); if (n_on_master) vs_stat_flag("suspend_on_master"); if (n_on_worker) vs_stat_flag("suspend_on_worker");
     if (nsusp && (mc == 1 || par == 1)) vs_stat_flag("single_thread_arena");
